@@ -236,7 +236,7 @@ def callee_paths(c):
 class Program:
     """A set of crates loaded together; bodies indexed by generic-free path."""
 
-    def __init__(self, pkgs, log=None, repo=None, variant=""):
+    def __init__(self, pkgs, log=None, repo=None, variant="", raw=False):
         self.crates = {}
         self.bodies = []
         self.by_key = defaultdict(list)
@@ -252,7 +252,8 @@ class Program:
         for p in pkgs:
             data = F.load(p, repo=repo, log=log, variant=variant)
             from .normalize import normalize
-            data = normalize(p, data, log=log)
+            if not raw:
+                data = normalize(p, data, log=log)
             self.folded.update(data.get("_folded", {}))
             self.crates[p] = data
             self._crate_names.add(data.get("crate", p))
